@@ -1,33 +1,230 @@
-(* Fields a decoder program does not name are left alone: a static
-   check on the program (no_write) and its soundness. Used for the
-   first header byte (C16). *)
+(* What decoder programs preserve: a relation between the packet before
+   and after that every update made by the interpreter respects (given a
+   static condition on the fields a program names) holds across whole
+   programs. Instances: a field the program does not write keeps its
+   value (first header byte, C16; CONNECT flags); a will that is
+   allocated stays allocated (C19). *)
 From MQ Require Import Model.Codec Proofs.BytesP Proofs.DecP.
 From Coq Require Import ZArith Lia.
+
+Section Preserved.
+  Variable R : pkt -> pkt -> Prop.
+  Variable okref : fref -> bool.      (* fields a DGet / map entry may write *)
+  Variable okdata : bool.             (* Undefined.data may be written       *)
+  Hypothesis R_refl : forall p, R p p.
+  Hypothesis R_trans : forall a b c, R a b -> R b c -> R a c.
+  Hypothesis R_setf : forall r v p, okref r = true -> R p (setf r v p).
+  Hypothesis R_data : forall v p, okdata = true -> R p (setf (M F_data) v p).
+  Hypothesis R_subid : forall o p, R p (set_subid p o).
+  Hypothesis R_subids : forall l p, R p (set_subids p l).
+  Hypothesis R_uprops : forall l p, R p (set_uprops p l).
+  Hypothesis R_wuprops : forall l p, R p (set_wuprops p l).
+  Hypothesis R_filters : forall l p, R p (set_filters p l).
+  Hypothesis R_ufilters : forall l p, R p (set_ufilters p l).
+  Hypothesis R_rcodes : forall l p, R p (set_rcodes p l).
+  Hypothesis R_will_init : forall p, R p (will_init p).
+
+  Fixpoint no_write1 (d : dec) {struct d} : bool :=
+    let nw_list := fix nw_list (ds : list dec) : bool :=
+      match ds with [] => true | d' :: ds' => no_write1 d' && nw_list ds' end in
+    match d with
+    | DGet r _ => okref r
+    | DGetAny m _ _ => forallb (fun e => okref (snd (fst e))) m
+    | DIf _ ds => nw_list ds
+    | DUndefinedData => okdata
+    | DWillPayloadCopy => okref (W F_payload)
+    | _ => true
+    end.
+  Fixpoint no_write (ds : list dec) : bool :=
+    match ds with [] => true | d :: ds' => no_write1 d && no_write ds' end.
+
+  Definition same (s s' : dstate) : Prop := R (dp s) (dp s').
+
+  Definition keeps (s : dstate) (r : res) : Prop :=
+    match r with Run s' => same s s' | _ => True end.
+
+  Lemma keeps_trans s s1 r : same s s1 -> keeps s1 r -> keeps s r.
+  Proof. destruct r; cbn; auto. unfold same. intros A B. eapply R_trans; eassumption. Qed.
+
+  Lemma same_pkt s s' : dp s' = dp s -> same s s'.
+  Proof. unfold same. intros ->. apply R_refl. Qed.
+
+  Lemma same_step s s' p' : same s s' -> R (dp s') p' -> same s (with_pkt p' s').
+  Proof. unfold same. cbn. intros A B. eapply R_trans; eassumption. Qed.
+
+  Lemma get_val_keeps w old s :
+    match get_val w old s with
+    | GOk _ s' | GNo s' => dp s' = dp s
+    | GPanic => True
+    end.
+  Proof.
+    pose proof (get_val_spec w old s) as G.
+    destruct (get_val w old s); try exact I; destruct G as [[Gp _ _ _] _]; exact Gp.
+  Qed.
+
+  Lemma get_up_keeps s :
+    match get_with dec_userprop width_userprop s with
+    | GOk _ s' | GNo s' => dp s' = dp s
+    | GPanic => True
+    end.
+  Proof.
+    pose proof (get_up_spec s) as G.
+    destruct (get_with dec_userprop width_userprop s); try exact I;
+      destruct G as [[Gp _ _ _] _]; exact Gp.
+  Qed.
+
+  Lemma get_keeps r w s : okref r = true -> keeps s (get r w s).
+  Proof.
+    intros H. unfold get. destruct (getf_opt r (dp s)) as [old|]; [|exact I].
+    pose proof (get_val_keeps w old s) as K.
+    destruct (get_val w old s) as [v s'|s'|]; cbn; auto.
+    - unfold same. cbn. rewrite K. apply R_setf. exact H.
+    - apply same_pkt. exact K.
+  Qed.
+
+  Lemma lookup_nw m id r t :
+    forallb (fun e => okref (snd (fst e))) m = true ->
+    lookup_prop m id = Some (r, t) -> okref r = true.
+  Proof.
+    induction m as [|[[i r'] t'] m IH]; cbn; [discriminate|].
+    intros H. apply andb_prop in H as [H1 H2].
+    destruct (i =? id); [intros Q; injection Q as <- <-; exact H1|apply IH; exact H2].
+  Qed.
+
+  Lemma getany_loop_keeps : forall fuel m will sm endp id s,
+    forallb (fun e => okref (snd (fst e))) m = true ->
+    keeps s (getany_loop fuel m will sm endp id s).
+  Proof.
+    induction fuel as [|fuel IH]; intros m will sm endp id s Hm; [exact I|].
+    cbn [getany_loop].
+    destruct (N.of_nat (dpos s) <? endp); [|cbn; apply R_refl].
+    pose proof (get_val_keeps U8 (VN id) s) as K1.
+    destruct (get_val U8 (VN id) s) as [v s1|s1|]; [|apply same_pkt; exact K1|exact I].
+    assert (S1 : same s s1) by (apply same_pkt; exact K1).
+    assert (K : forall s2 id', same s1 s2 -> keeps s (getany_loop fuel m will sm endp id' s2)).
+    { intros s2 id' S2. apply (keeps_trans s s2); [unfold same in *; eapply R_trans; eassumption|].
+      apply IH. exact Hm. }
+    set (idv := valN v).
+    destruct (match sm with
+              | SubOpt => if idv =? SubscriptionID then None else lookup_prop m idv
+              | _ => lookup_prop m idv end) as [[r t]|] eqn:EL.
+    - assert (Hr : okref r = true).
+      { destruct sm; try (apply (lookup_nw m idv r t Hm EL)).
+        destruct (idv =? SubscriptionID); [discriminate|apply (lookup_nw m idv r t Hm EL)]. }
+      pose proof (get_keeps r t s1 Hr) as P.
+      destruct (get r t s1) as [s2| |]; [|exact I|exact I]. apply K. exact P.
+    - destruct (match sm with SubOpt => idv =? SubscriptionID | _ => false end).
+      + set (s1' := with_pkt (set_subid (dp s1) (Some 0)) s1).
+        assert (S1' : same s1 s1') by (unfold same; cbn; apply R_subid).
+        pose proof (get_val_keeps Vb (VN 0) s1') as K2.
+        destruct (get_val Vb (VN 0) s1') as [v2 s2|s2|]; [| |exact I]; apply K.
+        * apply same_step; [unfold same in *; rewrite K2; exact S1'|apply R_subid].
+        * unfold same in *. rewrite K2. exact S1'.
+      + destruct (idv =? UserProperty).
+        * pose proof (get_up_keeps s1) as K2.
+          destruct (get_with dec_userprop width_userprop s1) as [kv s2|s2|]; [| |exact I];
+            unfold add_uprop; destruct will; try destruct (hasWill (dp s2)); try exact I;
+            apply K; (apply same_step; [apply same_pkt; exact K2|]);
+            first [apply R_wuprops | apply R_uprops].
+        * destruct (idv =? SubscriptionID).
+          -- pose proof (get_val_keeps Vb (VN 0) s1) as K2.
+             destruct (get_val Vb (VN 0) s1) as [v2 s2|s2|]; [| |exact I];
+               destruct sm; apply K;
+               first [apply same_pkt; exact K2
+                     |apply same_step; [apply same_pkt; exact K2|apply R_subids]].
+          -- apply K. apply same_pkt. reflexivity.
+  Qed.
+
+  Lemma getany_keeps m will sm s :
+    forallb (fun e => okref (snd (fst e))) m = true -> keeps s (getany m will sm s).
+  Proof.
+    intros Hm. unfold getany. destruct (at_end s); [cbn; apply R_refl|].
+    pose proof (get_val_keeps Vb (VN 0) s) as K1.
+    destruct (get_val Vb (VN 0) s) as [v s1|s1|]; [| |exact I];
+      (apply (keeps_trans s s1); [apply same_pkt; exact K1|]); apply getany_loop_keeps; exact Hm.
+  Qed.
+
+  Lemma filter_loop_keeps : forall fuel s, keeps s (filter_loop fuel s).
+  Proof.
+    induction fuel as [|fuel IH]; intros s; [exact I|]. cbn [filter_loop].
+    destruct (at_end s); [cbn; apply R_refl|].
+    pose proof (get_val_keeps Bin (VS []) s) as K1.
+    assert (Z : forall s2 (l : list (list byte * N)), dp s2 = dp s ->
+      let s3 := with_pkt (set_filters (dp s2) l) s2 in
+      keeps s (match derr s3 with
+               | Some _ => Run s3
+               | None => if at_end s3 then Run s3 else filter_loop fuel s3 end)).
+    { intros s2 l E s3.
+      assert (S3 : same s s3) by (unfold same, s3; cbn; rewrite E; apply R_filters).
+      destruct (derr s3); [exact S3|]. destruct (at_end s3); [exact S3|].
+      apply (keeps_trans s s3 _ S3). apply IH. }
+    destruct (get_val Bin (VS []) s) as [v s1|s1|]; [| |exact I];
+      pose proof (get_val_keeps U8 (VN 0) s1) as K2;
+      (destruct (get_val U8 (VN 0) s1) as [v2 s2|s2|]; [| |exact I]);
+      apply Z; congruence.
+  Qed.
+
+  Lemma ufilter_loop_keeps : forall fuel s, keeps s (ufilter_loop fuel s).
+  Proof.
+    induction fuel as [|fuel IH]; intros s; [exact I|]. cbn [ufilter_loop].
+    destruct (at_end s); [cbn; apply R_refl|].
+    pose proof (get_val_keeps Bin (VS []) s) as K1.
+    assert (Z : forall s2 (l : list (list byte)), dp s2 = dp s ->
+      let s3 := with_pkt (set_ufilters (dp s2) l) s2 in
+      keeps s (match derr s3 with
+               | Some _ => Run s3
+               | None => if at_end s3 then Run s3 else ufilter_loop fuel s3 end)).
+    { intros s2 l E s3.
+      assert (S3 : same s s3) by (unfold same, s3; cbn; rewrite E; apply R_ufilters).
+      destruct (derr s3); [exact S3|]. destruct (at_end s3); [exact S3|].
+      apply (keeps_trans s s3 _ S3). apply IH. }
+    destruct (get_val Bin (VS []) s) as [v s1|s1|]; [| |exact I]; apply Z; exact K1.
+  Qed.
+
+  Lemma rcodes_loop_keeps : forall n acc s, keeps s (rcodes_loop n acc s).
+  Proof.
+    induction n as [|n IH]; intros acc s; [cbn; apply R_rcodes|]. cbn [rcodes_loop].
+    pose proof (get_val_keeps U8 (VN 0) s) as K1.
+    destruct (get_val U8 (VN 0) s) as [v s1|s1|]; [| |exact I];
+      (apply (keeps_trans s s1 _); [apply same_pkt; exact K1|]); apply IH.
+  Qed.
+
+  Lemma run_dec1_keeps : forall d s, no_write1 d = true -> keeps s (run_dec1 d s).
+  Proof.
+    fix IH 1. intros d s H.
+    destruct d as [r t|m will sm|c ds| | | | | |]; cbn [no_write1] in H; cbn [run_dec1].
+    - apply get_keeps. exact H.
+    - apply getany_keeps. exact H.
+    - destruct (eval_cond c (dp s) (env_of s)); [|cbn; apply R_refl].
+      revert s. induction ds as [|d ds IHds]; intros s; [cbn; apply R_refl|].
+      apply andb_prop in H as [H1 H2].
+      pose proof (IH d s H1) as K1.
+      destruct (run_dec1 d s) as [s1| |]; [|exact I|exact I].
+      apply (keeps_trans s s1 _ K1). apply IHds. exact H2.
+    - cbn. unfold same. cbn. apply R_will_init.
+    - destruct (hasWill (dp s)); [|exact I]. unfold keeps, same. cbn [dp with_pkt]. apply R_setf. exact H.
+    - apply filter_loop_keeps.
+    - apply ufilter_loop_keeps.
+    - destruct (dpos s <=? length (ddata s))%nat; [|exact I]. apply rcodes_loop_keeps.
+    - unfold keeps, same. cbn [dp with_pkt]. apply R_data. exact H.
+  Qed.
+
+  Lemma run_dec_keeps : forall ds s, no_write ds = true -> keeps s (run_dec ds s).
+  Proof.
+    induction ds as [|d ds IH]; intros s H; [cbn; apply R_refl|].
+    cbn [no_write] in H. apply andb_prop in H as [H1 H2]. cbn [run_dec].
+    pose proof (run_dec1_keeps d s H1) as K1.
+    destruct (run_dec1 d s) as [s1| |]; [|exact I|exact I].
+    apply (keeps_trans s s1 _ K1). apply IH. exact H2.
+  Qed.
+End Preserved.
+
+(* ---------------- instance: a field keeps its value ---------------- *)
 
 Definition ref_is (f0 : fld) (r : fref) : bool :=
   match r with M f => fld_eqb f f0 | W _ => false end.
 
-Fixpoint no_write1 (f0 : fld) (d : dec) {struct d} : bool :=
-  let nw_list := fix nw_list (ds : list dec) : bool :=
-    match ds with [] => true | d' :: ds' => no_write1 f0 d' && nw_list ds' end in
-  match d with
-  | DGet r _ => negb (ref_is f0 r)
-  | DGetAny m _ _ => forallb (fun e => negb (ref_is f0 (snd (fst e)))) m
-  | DIf _ ds => nw_list ds
-  | DUndefinedData => negb (fld_eqb F_data f0)
-  | _ => true
-  end.
-Fixpoint no_write (f0 : fld) (ds : list dec) : bool :=
-  match ds with [] => true | d :: ds' => no_write1 f0 d && no_write f0 ds' end.
-
-Definition same (f0 : fld) (s s' : dstate) : Prop := vals (dp s') f0 = vals (dp s) f0.
-
-Lemma fld_eqb_refl f : fld_eqb f f = true.
-Proof. unfold fld_eqb. apply N.eqb_refl. Qed.
-
-Lemma fld_idx_inj a b : fld_idx a = fld_idx b -> a = b.
-Proof. destruct a, b; cbn; intros H; try reflexivity; discriminate H. Qed.
-
+Definition Rfield (f0 : fld) (p p' : pkt) : Prop := vals p' f0 = vals p f0.
 
 Lemma setf_other f0 r v p : ref_is f0 r = false -> vals (setf r v p) f0 = vals p f0.
 Proof.
@@ -35,178 +232,19 @@ Proof.
   unfold upd. unfold fld_eqb in *. rewrite N.eqb_sym. rewrite H. reflexivity.
 Qed.
 
-Definition keeps (f0 : fld) (s : dstate) (r : res) : Prop :=
-  match r with Run s' => same f0 s s' | _ => True end.
+Definition nw_field (f0 : fld) := no_write (fun r => negb (ref_is f0 r)) (negb (fld_eqb F_data f0)).
 
-Lemma keeps_trans f0 s s1 r : same f0 s s1 -> keeps f0 s1 r -> keeps f0 s r.
-Proof. destruct r; cbn; auto. unfold same. intros A B. congruence. Qed.
-
-Lemma get_val_keeps f0 w old s :
-  match get_val w old s with
-  | GOk _ s' | GNo s' => same f0 s s'
-  | GPanic => True
-  end.
+Lemma field_kept f0 ds s : nw_field f0 ds = true ->
+  keeps (Rfield f0) s (run_dec ds s).
 Proof.
-  pose proof (get_val_spec w old s) as G.
-  destruct (get_val w old s); try exact I; destruct G as [[Gp _ _ _] _]; unfold same; rewrite Gp; reflexivity.
-Qed.
-
-Lemma get_up_keeps f0 s :
-  match get_with dec_userprop width_userprop s with
-  | GOk _ s' | GNo s' => same f0 s s'
-  | GPanic => True
-  end.
-Proof.
-  pose proof (get_up_spec s) as G.
-  destruct (get_with dec_userprop width_userprop s); try exact I;
-    destruct G as [[Gp _ _ _] _]; unfold same; rewrite Gp; reflexivity.
-Qed.
-
-Lemma get_keeps f0 r w s : ref_is f0 r = false -> keeps f0 s (get r w s).
-Proof.
-  intros H. unfold get. destruct (getf_opt r (dp s)) as [old|]; [|exact I].
-  pose proof (get_val_keeps f0 w old s) as K.
-  destruct (get_val w old s) as [v s'|s'|]; cbn; auto.
-  unfold same in *. cbn. rewrite setf_other by exact H. exact K.
-Qed.
-
-Lemma lookup_nw f0 m id r t :
-  forallb (fun e => negb (ref_is f0 (snd (fst e)))) m = true ->
-  lookup_prop m id = Some (r, t) -> ref_is f0 r = false.
-Proof.
-  induction m as [|[[i r'] t'] m IH]; cbn; [discriminate|].
-  intros H. apply andb_prop in H as [H1 H2].
-  destruct (i =? id); [intros Q; injection Q as <- <-; apply negb_true_iff; exact H1|apply IH; exact H2].
-Qed.
-
-Lemma getany_loop_keeps f0 : forall fuel m will sm endp id s,
-  forallb (fun e => negb (ref_is f0 (snd (fst e)))) m = true ->
-  keeps f0 s (getany_loop fuel m will sm endp id s).
-Proof.
-  induction fuel as [|fuel IH]; intros m will sm endp id s Hm; [exact I|].
-  cbn [getany_loop].
-  destruct (N.of_nat (dpos s) <? endp); [|cbn; reflexivity].
-  pose proof (get_val_keeps f0 U8 (VN id) s) as K1.
-  destruct (get_val U8 (VN id) s) as [v s1|s1|]; [|exact K1|exact I].
-  assert (K : forall s2 id', same f0 s1 s2 -> keeps f0 s (getany_loop fuel m will sm endp id' s2)).
-  { intros s2 id' S2. apply (keeps_trans f0 s s2); [unfold same in *; congruence|]. apply IH. exact Hm. }
-  set (idv := valN v).
-  destruct (match sm with
-            | SubOpt => if idv =? SubscriptionID then None else lookup_prop m idv
-            | _ => lookup_prop m idv end) as [[r t]|] eqn:EL.
-  - assert (Hr : ref_is f0 r = false).
-    { destruct sm; try (apply (lookup_nw f0 m idv r t Hm EL)).
-      destruct (idv =? SubscriptionID); [discriminate|apply (lookup_nw f0 m idv r t Hm EL)]. }
-    pose proof (get_keeps f0 r t s1 Hr) as P.
-    destruct (get r t s1) as [s2| |]; [|exact I|exact I]. apply K. exact P.
-  - destruct (match sm with SubOpt => idv =? SubscriptionID | _ => false end).
-    + set (s1' := with_pkt (set_subid (dp s1) (Some 0)) s1).
-      pose proof (get_val_keeps f0 Vb (VN 0) s1') as K2.
-      destruct (get_val Vb (VN 0) s1') as [v2 s2|s2|]; [| |exact I]; apply K; unfold same in *; cbn in *; congruence.
-    + destruct (idv =? UserProperty).
-      * pose proof (get_up_keeps f0 s1) as K2.
-        destruct (get_with dec_userprop width_userprop s1) as [kv s2|s2|]; [| |exact I];
-          unfold add_uprop; destruct will; try destruct (hasWill (dp s2)); try exact I;
-          apply K; unfold same in *; cbn in *; congruence.
-      * destruct (idv =? SubscriptionID).
-        -- pose proof (get_val_keeps f0 Vb (VN 0) s1) as K2.
-           destruct (get_val Vb (VN 0) s1) as [v2 s2|s2|]; [| |exact I];
-             destruct sm; apply K; unfold same in *; cbn in *; congruence.
-        -- apply K. reflexivity.
-Qed.
-
-Lemma getany_keeps f0 m will sm s :
-  forallb (fun e => negb (ref_is f0 (snd (fst e)))) m = true -> keeps f0 s (getany m will sm s).
-Proof.
-  intros Hm. unfold getany. destruct (at_end s); [cbn; reflexivity|].
-  pose proof (get_val_keeps f0 Vb (VN 0) s) as K1.
-  destruct (get_val Vb (VN 0) s) as [v s1|s1|]; [| |exact I];
-    (apply (keeps_trans f0 s s1); [exact K1|]); apply getany_loop_keeps; exact Hm.
-Qed.
-
-Lemma filter_loop_keeps f0 : forall fuel s, keeps f0 s (filter_loop fuel s).
-Proof.
-  induction fuel as [|fuel IH]; intros s; [exact I|]. cbn [filter_loop].
-  destruct (at_end s); [cbn; reflexivity|].
-  pose proof (get_val_keeps f0 Bin (VS []) s) as K1.
-  destruct (get_val Bin (VS []) s) as [v s1|s1|]; [| |exact I].
-  - pose proof (get_val_keeps f0 U8 (VN 0) s1) as K2.
-    destruct (get_val U8 (VN 0) s1) as [v2 s2|s2|]; [| |exact I].
-    + set (s3 := with_pkt _ s2).
-      assert (S3 : same f0 s s3) by (unfold same in *; cbn in *; congruence).
-      destruct (derr s3); [exact S3|]. destruct (at_end s3); [exact S3|].
-      apply (keeps_trans f0 s s3 _ S3). apply IH.
-    + set (s3 := with_pkt _ s2).
-      assert (S3 : same f0 s s3) by (unfold same in *; cbn in *; congruence).
-      destruct (derr s3); [exact S3|]. destruct (at_end s3); [exact S3|].
-      apply (keeps_trans f0 s s3 _ S3). apply IH.
-  - pose proof (get_val_keeps f0 U8 (VN 0) s1) as K2.
-    destruct (get_val U8 (VN 0) s1) as [v2 s2|s2|]; [| |exact I].
-    + set (s3 := with_pkt _ s2).
-      assert (S3 : same f0 s s3) by (unfold same in *; cbn in *; congruence).
-      destruct (derr s3); [exact S3|]. destruct (at_end s3); [exact S3|].
-      apply (keeps_trans f0 s s3 _ S3). apply IH.
-    + set (s3 := with_pkt _ s2).
-      assert (S3 : same f0 s s3) by (unfold same in *; cbn in *; congruence).
-      destruct (derr s3); [exact S3|]. destruct (at_end s3); [exact S3|].
-      apply (keeps_trans f0 s s3 _ S3). apply IH.
-Qed.
-
-Lemma ufilter_loop_keeps f0 : forall fuel s, keeps f0 s (ufilter_loop fuel s).
-Proof.
-  induction fuel as [|fuel IH]; intros s; [exact I|]. cbn [ufilter_loop].
-  destruct (at_end s); [cbn; reflexivity|].
-  pose proof (get_val_keeps f0 Bin (VS []) s) as K1.
-  destruct (get_val Bin (VS []) s) as [v s1|s1|]; [| |exact I].
-  - set (s3 := with_pkt _ s1).
-    assert (S3 : same f0 s s3) by (unfold same in *; cbn in *; congruence).
-    destruct (derr s3); [exact S3|]. destruct (at_end s3); [exact S3|].
-    apply (keeps_trans f0 s s3 _ S3). apply IH.
-  - set (s3 := with_pkt _ s1).
-    assert (S3 : same f0 s s3) by (unfold same in *; cbn in *; congruence).
-    destruct (derr s3); [exact S3|]. destruct (at_end s3); [exact S3|].
-    apply (keeps_trans f0 s s3 _ S3). apply IH.
-Qed.
-
-Lemma rcodes_loop_keeps f0 : forall n acc s, keeps f0 s (rcodes_loop n acc s).
-Proof.
-  induction n as [|n IH]; intros acc s; [cbn; reflexivity|]. cbn [rcodes_loop].
-  pose proof (get_val_keeps f0 U8 (VN 0) s) as K1.
-  destruct (get_val U8 (VN 0) s) as [v s1|s1|]; [| |exact I];
-    apply (keeps_trans f0 s s1 _ K1); apply IH.
-Qed.
-
-Lemma run_dec1_keeps f0 : forall d s, no_write1 f0 d = true -> keeps f0 s (run_dec1 d s).
-Proof.
-  fix IH 1. intros d s H. destruct d as [r t|m will sm|c ds| | | | | |]; cbn [no_write1] in H; cbn [run_dec1].
-  - apply get_keeps. apply negb_true_iff. exact H.
-  - apply getany_keeps. exact H.
-  - destruct (eval_cond c (dp s) (env_of s)); [|cbn; reflexivity].
-    revert s. induction ds as [|d ds IHds]; intros s; [cbn; reflexivity|].
-    apply andb_prop in H as [H1 H2].
-    pose proof (IH d s H1) as K1.
-    destruct (run_dec1 d s) as [s1| |]; [|exact I|exact I].
-    apply (keeps_trans f0 s s1 _ K1). apply IHds. exact H2.
-  - cbn. unfold same. cbn. unfold will_init. reflexivity.
-  - destruct (hasWill (dp s)); [|exact I]. cbn. reflexivity.
-  - apply filter_loop_keeps.
-  - apply ufilter_loop_keeps.
-  - destruct (dpos s <=? length (ddata s))%nat; [|exact I]. apply rcodes_loop_keeps.
-  - cbn. unfold same. cbn. unfold upd. apply negb_true_iff in H.
-    unfold fld_eqb in *. rewrite N.eqb_sym. rewrite H. reflexivity.
-Qed.
-
-Lemma run_dec_keeps f0 : forall ds s, no_write f0 ds = true -> keeps f0 s (run_dec ds s).
-Proof.
-  induction ds as [|d ds IH]; intros s H; [cbn; reflexivity|].
-  cbn [no_write] in H. apply andb_prop in H as [H1 H2]. cbn [run_dec].
-  pose proof (run_dec1_keeps f0 d s H1) as K1.
-  destruct (run_dec1 d s) as [s1| |]; [|exact I|exact I].
-  apply (keeps_trans f0 s s1 _ K1). apply IH. exact H2.
+  apply (run_dec_keeps (Rfield f0) (fun r => negb (ref_is f0 r)) (negb (fld_eqb F_data f0)));
+    unfold Rfield; intros; try reflexivity; try congruence.
+  - apply setf_other. apply negb_true_iff. assumption.
+  - apply setf_other. cbn. apply negb_true_iff. assumption.
 Qed.
 
 (* no decoder skeleton writes the first header byte *)
-Lemma skeletons_keep_fixed : forall k, no_write F_fixed (dec_of k) = true.
+Lemma skeletons_keep_fixed : forall k, nw_field F_fixed (dec_of k) = true.
 Proof. intros k; destruct k; vm_compute; reflexivity. Qed.
 
 Theorem unmarshal_keeps_fixed k p0 data p :
@@ -214,7 +252,22 @@ Theorem unmarshal_keeps_fixed k p0 data p :
 Proof.
   unfold unmarshal, unmarshal_steps.
   set (s0 := {| dp := p0; ddata := data; dpos := 0; derr := None; dsteps := 0 |}).
-  pose proof (run_dec_keeps F_fixed (dec_of k) s0 (skeletons_keep_fixed k)) as K.
+  pose proof (field_kept F_fixed (dec_of k) s0 (skeletons_keep_fixed k)) as K.
   destruct (run_dec (dec_of k) s0) as [s1| |]; cbn; [|discriminate|discriminate].
   destruct (derr s1); [discriminate|]. intros Q; injection Q as <-. exact K.
+Qed.
+
+(* ---------------- instance: an allocated will stays allocated ------- *)
+
+Definition Rwill (p p' : pkt) : Prop := hasWill p = true -> hasWill p' = true.
+
+Lemma will_kept ds s : keeps Rwill s (run_dec ds s).
+Proof.
+  assert (H : no_write (fun _ => true) true ds = true).
+  { induction ds as [|d ds IH]; [reflexivity|]. cbn [no_write]. rewrite IH, andb_true_r.
+    clear IH. revert d. fix IHd 1. intros d. destruct d; cbn [no_write1]; try reflexivity.
+    - induction m as [|e m IHm]; [reflexivity|]. cbn. exact IHm.
+    - induction ds0 as [|d' ds' IH']; [reflexivity|]. rewrite IHd. exact IH'. }
+  apply (run_dec_keeps Rwill (fun _ => true) true); unfold Rwill; intros; auto;
+    try (rewrite hasWill_setf; assumption).
 Qed.
